@@ -303,6 +303,65 @@ let run_transfer (toks : string list) : string =
   | "bad" :: _ -> "err"
   | _ -> "?bad-case"
 
+(* ---- component: tsdiff (C01) -----------------------------------------------
+   case:   tsd <mine> <other>     each side `-` or name=stamp,name=stamp,... (hex stamps,
+                                  names of one ASCII letter)
+   result: the names KeyspaceTimestamps::diff lists, sorted                          *)
+let run_tsdiff (toks : string list) : string =
+  let side s =
+      if s = "-" then []
+      else
+        List.map
+          (fun it ->
+            match String.split_on_char '=' it with
+            | [ nm; t ] when String.length nm = 1 -> (n_of_int (Char.code nm.[0]), n t)
+            | _ -> failwith "item")
+          (String.split_on_char ',' s)
+  in
+  let show_names ks =
+    let names = List.sort compare (List.map (fun k -> String.make 1 (Char.chr (int_of_n k))) ks) in
+    if names = [] then "-" else String.concat "," names
+  in
+  match toks with
+  | [ "tsd"; mine; other ] ->
+    let _unused s =
+      if s = "-" then []
+      else
+        List.map
+          (fun it ->
+            match String.split_on_char '=' it with
+            | [ nm; t ] when String.length nm = 1 -> (n_of_int (Char.code nm.[0]), n t)
+            | _ -> failwith "item")
+          (String.split_on_char ',' s)
+    in
+    show_names (Model.ts_diff_lists (side mine) (side other))
+  | "trk" :: ops ->
+    (* a script on the poller's tracker: r<node>:<name>=<stamp> (an exchange recorded),
+       l<node> (the node left), p<node>:<side> (the plan for what the node reports) *)
+    let st = ref Model.p_init in
+    let outs = ref [] in
+    List.iter
+      (fun op ->
+        let body = String.sub op 1 (String.length op - 1) in
+        match op.[0] with
+        | 'r' ->
+          (match String.split_on_char ':' body with
+           | [ nd; it ] ->
+             (match side it with
+              | [ (k, t) ] -> st := Model.poller_record !st (nat_of_int (int_of_string nd)) k t
+              | _ -> failwith "record")
+           | _ -> failwith "record")
+        | 'l' -> st := Model.poller_apply !st [] [ (nat_of_int (int_of_string body), n_of_int 0) ]
+        | 'p' ->
+          (match String.split_on_char ':' body with
+           | [ nd; sd ] ->
+             outs := show_names (Model.poller_plan_list !st (nat_of_int (int_of_string nd)) (side sd)) :: !outs
+           | _ -> failwith "plan")
+        | _ -> failwith "op")
+      ops;
+    String.concat " | " (List.rev !outs)
+  | _ -> "?bad-case"
+
 (* ---- component: cluster (C01 C06) ----------------------------------------- *)
 let run_cluster (toks : string list) : string =
   match toks with
@@ -315,7 +374,16 @@ let run_cluster (toks : string list) : string =
     let c = ref (Model.cinit (nat_of_int nn)) in
     let links = Array.make nn true in
     let pending = Array.make nn [] in
-    let queued = Array.make nn [] in
+    (* every node's task distributor (Distributor.v): it knows all other nodes as members (the
+       executor hands it that membership change at start and after a restart; `T` occurs only in
+       schedules where it does) *)
+    let fresh_dist i =
+      let others = List.filter (fun j -> j <> i) (List.init nn (fun x -> x)) in
+      Model.d_register Model.d_init
+        (Model.DMember (List.map (fun j -> (nat_of_int j, n_of_int j)) others, []))
+    in
+    let dist = Array.init nn fresh_dist in
+    let register i m = dist.(i) <- Model.d_register dist.(i) (Model.DMutation m) in
     let slots = Array.make nn None in
     let nodeat i = Model.node !c (nat_of_int i) in
     let dump i =
@@ -387,7 +455,7 @@ let run_cluster (toks : string list) : string =
               let acks = List.filter (fun j -> links.(j)) sel in
               c := Model.cstep !c (Model.CIssue (nat_of_int i, m, List.map nat_of_int acks));
               pending.(i) <- pending.(i) @ [ m ];
-              queued.(i) <- queued.(i) @ [ m ];
+              register i m;
               let res =
                 if List.length acks = List.length sel then "ok"
                 else Printf.sprintf "cf.%d.%d" (List.length acks) (List.length sel)
@@ -408,11 +476,12 @@ let run_cluster (toks : string list) : string =
             (* the distributors' interval: every node sends one batch with everything registered since
                its last flush to every reachable member *)
             for i = 0 to nn - 1 do
-              if queued.(i) <> [] then
-                for j = 0 to nn - 1 do
-                  if j <> i && links.(j) then c := Model.cstep !c (Model.CBatch (nat_of_int j, queued.(i)))
-                done;
-              queued.(i) <- []
+              let s', o = Model.d_tick dist.(i) in
+              dist.(i) <- s';
+              match o with
+              | Some x ->
+                List.iter (fun e -> c := Model.cstep !c e) (Model.tick_events (fun j -> links.(int_of_nat j)) x)
+              | None -> ()
             done;
             "T:" ^ touched_dump (List.init nn (fun x -> x))
           | [ "X"; j; i ] ->
@@ -469,7 +538,7 @@ let run_cluster (toks : string list) : string =
                 let m = Model.MPut { Model.d_id = n k; d_ts = n t; d_data = n (Printf.sprintf "%x" (0x6000 + int_of_string ("0x" ^ k))) } in
                 c := Model.cstep !c (Model.CIssue (nat_of_int i, m, []));
                 pending.(i) <- pending.(i) @ [ m ];
-                queued.(i) <- queued.(i) @ [ m ]
+                register i m
               end
             in
             (match stamps with
@@ -489,7 +558,7 @@ let run_cluster (toks : string list) : string =
             let i = int_of_string i in
             c := Model.cstep !c (Model.CRestart (nat_of_int i));
             slots.(i) <- None;
-            queued.(i) <- [];
+            dist.(i) <- fresh_dist i;
             "R:" ^ touched_dump [ i ]
           | [ "Q" ] ->
             Array.fill links 0 nn true;
@@ -566,6 +635,7 @@ let () =
     | "orswot" -> run_orswot
     | "actor" -> run_actor_gen false true
     | "cluster" -> run_cluster
+    | "tsdiff" -> run_tsdiff
     | "clock" -> run_clock
     | "actor-legacy-d2" -> run_actor_gen false false
     | "transfer" -> run_transfer
